@@ -103,15 +103,16 @@ class Ptr:
 
 class Seq:
     """Immutable sequence snapshot: element k is get(k), 0 <= k < length."""
-    __slots__ = ('get', 'length', 'kind', 'items', 'win', 'pos')
+    __slots__ = ('get', 'length', 'kind', 'items', 'win', 'pos', 'nd')
 
-    def __init__(self, get, length, kind, items=None, win=None, pos=None):
+    def __init__(self, get, length, kind, items=None, win=None, pos=None, nd=False):
         self.get = get
         self.length = length
         self.kind = kind
         self.items = items   # concrete python list when known
         self.win = win       # (array term, lo, hi) when the sequence is a contiguous window
         self.pos = pos       # (elem_at(p), p_lo, p_hi, start, step): element k sits at position start + k*step, p_lo <= p < p_hi
+        self.nd = nd         # a view of a NumPy array (isinstance(..., np.ndarray), element-wise arithmetic)
 
 
 class Uninit:
